@@ -100,16 +100,89 @@ Proof. destruct c; reflexivity. Qed.
 Lemma typed_check_modified c st e : typed c e = true -> check_modified md5 c st e <> None.
 Proof. destruct c, e; simpl; congruence. Qed.
 
+(* ---------- one file dependency in the loop: the saved state against the file system [file_verdict],
+   and, since fixC, membership in the saved 'deps:' list ---------- *)
+Lemma outside_saved_deps_iff r f :
+  outside_saved_deps r f = true <-> exists p, r_deps r = Some p /\ ~ In f p.
+Proof.
+  unfold outside_saved_deps. destruct (r_deps r) as [p|].
+  - rewrite negb_true_iff. split.
+    + intros E. exists p. split; auto. intros H. apply mem_In in H. congruence.
+    + intros (p' & E & H). inversion E; subst. destruct (mem f p') eqn:Em; auto. apply mem_In in Em. contradiction.
+  - split; [discriminate | intros (p & E & _); discriminate].
+Qed.
+Lemma dep_verdict_spec v c fs r f :
+  dep_verdict md5 v c fs r f =
+  if fixC v && outside_saved_deps r f
+  then match file_verdict md5 c fs r f with FMissing => FMissing | _ => FChanged end
+  else file_verdict md5 c fs r f.
+Proof.
+  unfold dep_verdict, file_verdict. destruct (fs f) as [st|]; [|destruct (fixC v && outside_saved_deps r f); reflexivity].
+  destruct (r_saved r f) as [e|]; [|destruct (fixC v && outside_saved_deps r f); reflexivity].
+  destruct (fixC v && outside_saved_deps r f); [|reflexivity].
+  destruct (check_modified md5 c st e) as [[|]|]; reflexivity.
+Qed.
+Lemma dep_verdict_legacy v c fs r f : fixC v = false -> dep_verdict md5 v c fs r f = file_verdict md5 c fs r f.
+Proof. intros E. rewrite dep_verdict_spec, E. reflexivity. Qed.
+Lemma dep_verdict_inside v c fs r f :
+  outside_saved_deps r f = false -> dep_verdict md5 v c fs r f = file_verdict md5 c fs r f.
+Proof. intros E. rewrite dep_verdict_spec, E, andb_false_r. reflexivity. Qed.
+Lemma dep_verdict_outside v c fs r f :
+  fixC v = true -> outside_saved_deps r f = true -> fs f <> None -> dep_verdict md5 v c fs r f = FChanged.
+Proof.
+  intros E1 E2 Hf. rewrite dep_verdict_spec, E1, E2. simpl.
+  unfold file_verdict. destruct (fs f) as [st|]; [|congruence].
+  destruct (r_saved r f) as [e|]; [destruct (check_modified md5 c st e) as [[|]|]|]; reflexivity.
+Qed.
+Lemma dep_verdict_same v c fs r f :
+  dep_verdict md5 v c fs r f = FSame <->
+  file_verdict md5 c fs r f = FSame /\ fixC v && outside_saved_deps r f = false.
+Proof.
+  rewrite dep_verdict_spec. destruct (fixC v && outside_saved_deps r f).
+  - split; [destruct (file_verdict md5 c fs r f); discriminate | intros [_ H]; discriminate].
+  - tauto.
+Qed.
+Lemma dep_verdict_missing v c fs r f : dep_verdict md5 v c fs r f = FMissing <-> fs f = None.
+Proof.
+  unfold dep_verdict. destruct (fs f) as [st|]; [|tauto].
+  destruct (r_saved r f) as [e|]; [destruct (fixC v && outside_saved_deps r f); [|destruct (check_modified md5 c st e) as [[|]|]]|];
+    split; discriminate.
+Qed.
+(* what the loop lists: an existing dependency with no saved state, or outside the saved 'deps:' list
+   (fixC), or modified according to the checker *)
+Lemma dep_verdict_changed v c fs r f :
+  dep_verdict md5 v c fs r f = FChanged <->
+  exists st, fs f = Some st /\
+    (r_saved r f = None \/
+     (r_saved r f <> None /\ fixC v = true /\ outside_saved_deps r f = true) \/
+     (fixC v && outside_saved_deps r f = false /\ exists e, r_saved r f = Some e /\ check_modified md5 c st e = Some true)).
+Proof.
+  unfold dep_verdict. destruct (fs f) as [st|].
+  2: { split; [discriminate | intros (st & E & _); discriminate]. }
+  destruct (r_saved r f) as [e|].
+  2: { split; [intros _; exists st; auto | reflexivity]. }
+  destruct (fixC v && outside_saved_deps r f) eqn:Eo.
+  - split; [|reflexivity]. intros _. exists st. split; auto. right. left.
+    apply andb_true_iff in Eo. destruct Eo. split; [discriminate|]. auto.
+  - split.
+    + intros H. exists st. split; auto. right. right. split; auto. exists e. split; auto.
+      destruct (check_modified md5 c st e) as [[|]|]; auto; discriminate.
+    + intros (st' & E & [H|[(_ & H1 & H2)|(_ & e' & H1 & H2)]]).
+      * discriminate.
+      * rewrite H1, H2 in Eo. discriminate.
+      * inversion E; inversion H1; subst. rewrite H2. reflexivity.
+Qed.
+
 (* ---------- the loop over file_dep ---------- *)
-Lemma check_files_done_nil_gen c fs r gl deps : forall ch ms,
-  check_files md5 c fs r gl deps ch ms = FLDone [] [] <->
-  ch = [] /\ ms = [] /\ Forall (fun f => file_verdict md5 c fs r f = FSame) deps.
+Lemma check_files_done_nil_gen v c fs r gl deps : forall ch ms,
+  check_files md5 v c fs r gl deps ch ms = FLDone [] [] <->
+  ch = [] /\ ms = [] /\ Forall (fun f => dep_verdict md5 v c fs r f = FSame) deps.
 Proof.
   induction deps as [|f deps IH]; intros ch ms; simpl.
   - split.
     + intros H. injection H as H1 H2. rewrite rev_nil_iff in H1, H2. subst. auto.
     + intros (-> & -> & _). reflexivity.
-  - destruct (file_verdict md5 c fs r f) eqn:E.
+  - destruct (dep_verdict md5 v c fs r f) eqn:E.
     + destruct gl.
       * rewrite IH. split; [intros (_ & H & _); discriminate|]. intros (_ & _ & H). inversion H; congruence.
       * split; [discriminate|]. intros (_ & _ & H). inversion H; congruence.
@@ -117,42 +190,42 @@ Proof.
     + rewrite IH. split; intros (H1 & H2 & H3); repeat split; auto. inversion H3; auto.
     + split; [discriminate|]. intros (_ & _ & H). inversion H; congruence.
 Qed.
-Lemma check_files_done_nil c fs r deps : forall ch ms,
-  check_files md5 c fs r false deps ch ms = FLDone [] [] <->
-  ch = [] /\ ms = [] /\ Forall (fun f => file_verdict md5 c fs r f = FSame) deps.
+Lemma check_files_done_nil v c fs r deps : forall ch ms,
+  check_files md5 v c fs r false deps ch ms = FLDone [] [] <->
+  ch = [] /\ ms = [] /\ Forall (fun f => dep_verdict md5 v c fs r f = FSame) deps.
 Proof. apply check_files_done_nil_gen. Qed.
 
-Lemma check_files_no_crash c fs r gl deps :
-  (forall f, In f deps -> file_verdict md5 c fs r f <> FCrash) ->
-  forall ch ms, check_files md5 c fs r gl deps ch ms <> FLCrash.
+Lemma check_files_no_crash v c fs r gl deps :
+  (forall f, In f deps -> dep_verdict md5 v c fs r f <> FCrash) ->
+  forall ch ms, check_files md5 v c fs r gl deps ch ms <> FLCrash.
 Proof.
   induction deps as [|f deps IH]; intros H ch ms; simpl; try discriminate.
-  destruct (file_verdict md5 c fs r f) eqn:E.
+  destruct (dep_verdict md5 v c fs r f) eqn:E.
   - destruct gl; [apply IH; intros; apply H; simpl; auto | discriminate].
   - apply IH; intros; apply H; simpl; auto.
   - apply IH; intros; apply H; simpl; auto.
   - exfalso. apply (H f); simpl; auto.
 Qed.
 
-Lemma check_files_no_error c fs r gl deps :
-  (forall f, In f deps -> file_verdict md5 c fs r f <> FMissing) ->
-  forall ch ms, match check_files md5 c fs r gl deps ch ms with
+Lemma check_files_no_error v c fs r gl deps :
+  (forall f, In f deps -> dep_verdict md5 v c fs r f <> FMissing) ->
+  forall ch ms, match check_files md5 v c fs r gl deps ch ms with
                 | FLError _ => False | FLDone _ ms' => ms' = rev ms | FLCrash => True end.
 Proof.
   induction deps as [|f deps IH]; intros H ch ms; simpl; auto.
-  destruct (file_verdict md5 c fs r f) eqn:E; auto.
+  destruct (dep_verdict md5 v c fs r f) eqn:E; auto.
   - exfalso. apply (H f); simpl; auto.
   - apply IH; intros; apply H; simpl; auto.
   - apply IH; intros; apply H; simpl; auto.
 Qed.
 
-Lemma check_files_ext c fs fs' r r' gl deps :
-  (forall f, In f deps -> file_verdict md5 c fs r f = file_verdict md5 c fs' r' f) ->
-  forall ch ms, check_files md5 c fs r gl deps ch ms = check_files md5 c fs' r' gl deps ch ms.
+Lemma check_files_ext v c fs fs' r r' gl deps :
+  (forall f, In f deps -> dep_verdict md5 v c fs r f = dep_verdict md5 v c fs' r' f) ->
+  forall ch ms, check_files md5 v c fs r gl deps ch ms = check_files md5 v c fs' r' gl deps ch ms.
 Proof.
   induction deps as [|f deps IH]; intros H ch ms; simpl; auto.
   rewrite <- (H f) by (simpl; auto).
-  destruct (file_verdict md5 c fs r f); auto; try (apply IH; intros; apply H; simpl; auto).
+  destruct (dep_verdict md5 v c fs r f); auto; try (apply IH; intros; apply H; simpl; auto).
   destruct gl; auto. apply IH; intros; apply H; simpl; auto.
 Qed.
 
@@ -216,7 +289,7 @@ Proof.
   unfold get_status, ck_changed.
   repeat match goal with
          | |- context [if ?b then _ else _] => destruct b eqn:?; simpl; auto
-         | |- context [match check_files ?a ?b ?c' ?d' ?e ?f ?g ?h with _ => _ end] => destruct (check_files a b c' d' e f g h); simpl; auto
+         | |- context [match check_files ?a ?v0 ?b ?c' ?d' ?e ?f ?g ?h with _ => _ end] => destruct (check_files a v0 b c' d' e f g h); simpl; auto
          | |- context [match r_checker ?r with _ => _ end] => destruct (r_checker r); simpl; auto
          end.
 Qed.
@@ -226,7 +299,7 @@ Lemma get_status_uptodate_iff v c fs d t df :
   g_status (get_status md5 v c fs d t df false) = UpToDate <->
     items_ok d t df /\ some_dep d t df /\ targets_ok fs df /\
     ck_changed c (getrec d t) = false /\ deps_changed v (getrec d t) df = false /\
-    Forall (fun f => file_verdict md5 c fs (getrec d t) f = FSame) (file_dep df).
+    Forall (fun f => dep_verdict md5 v c fs (getrec d t) f = FSame) (file_dep df).
 Proof.
   rewrite <- items_ok_b, <- some_dep_b, <- targets_ok_b.
   unfold get_status. cbv zeta. fold (ck_changed c (getrec d t)).
@@ -239,23 +312,23 @@ Proof.
   destruct (ck_changed c (getrec d t)) eqn:E4; simpl.
   { split; [discriminate | intros (_ & _ & _ & H & _); discriminate]. }
   fold (deps_changed v (getrec d t) df).
-  destruct (check_files md5 c fs (getrec d t) false (file_dep df) [] []) as [ch ms| |] eqn:E5; simpl.
+  destruct (check_files md5 v c fs (getrec d t) false (file_dep df) [] []) as [ch ms| |] eqn:E5; simpl.
   - destruct ch as [|x ch]; simpl.
     + destruct ms as [|y ms]; simpl.
       * apply check_files_done_nil in E5. destruct E5 as (_ & _ & E5).
         destruct (deps_changed v (getrec d t) df); simpl; split; try discriminate; try tauto.
         intros (_ & _ & _ & _ & H & _); discriminate.
       * split; [discriminate|]. intros (_ & _ & _ & _ & _ & H).
-        assert (E6 : check_files md5 c fs (getrec d t) false (file_dep df) [] [] = FLDone [] [])
+        assert (E6 : check_files md5 v c fs (getrec d t) false (file_dep df) [] [] = FLDone [] [])
           by (apply check_files_done_nil; auto). congruence.
     + split; [discriminate|]. intros (_ & _ & _ & _ & _ & H).
-      assert (E6 : check_files md5 c fs (getrec d t) false (file_dep df) [] [] = FLDone [] [])
+      assert (E6 : check_files md5 v c fs (getrec d t) false (file_dep df) [] [] = FLDone [] [])
         by (apply check_files_done_nil; auto). congruence.
   - split; [discriminate|]. intros (_ & _ & _ & _ & _ & H).
-    assert (E6 : check_files md5 c fs (getrec d t) false (file_dep df) [] [] = FLDone [] [])
+    assert (E6 : check_files md5 v c fs (getrec d t) false (file_dep df) [] [] = FLDone [] [])
       by (apply check_files_done_nil; auto). congruence.
   - split; [discriminate|]. intros (_ & _ & _ & _ & _ & H).
-    assert (E6 : check_files md5 c fs (getrec d t) false (file_dep df) [] [] = FLDone [] [])
+    assert (E6 : check_files md5 v c fs (getrec d t) false (file_dep df) [] [] = FLDone [] [])
       by (apply check_files_done_nil; auto). congruence.
 Qed.
 
@@ -265,17 +338,17 @@ Lemma get_status_log_uptodate_iff v c fs d t df :
   g_status (get_status md5 v c fs d t df true) = UpToDate <->
     items_ok d t df /\ some_dep d t df /\ targets_ok fs df /\
     ck_changed c (getrec d t) = false /\ deps_changed v (getrec d t) df = false /\
-    Forall (fun f => file_verdict md5 c fs (getrec d t) f = FSame) (file_dep df).
+    Forall (fun f => dep_verdict md5 v c fs (getrec d t) f = FSame) (file_dep df).
 Proof.
   rewrite <- items_ok_b, <- some_dep_b, <- targets_ok_b.
   unfold get_status. cbv zeta. fold (ck_changed c (getrec d t)). simpl.
   destruct (ck_changed c (getrec d t)) eqn:E4.
-  { match goal with |- context [check_files ?a ?b ?c' ?d' ?e ?f ?g ?h] => destruct (check_files a b c' d' e f g h) as [ch ms| |] end; simpl.
+  { match goal with |- context [check_files ?a ?v0 ?b ?c' ?d' ?e ?f ?g ?h] => destruct (check_files a v0 b c' d' e f g h) as [ch ms| |] end; simpl.
     - destruct ch, ms; simpl; rewrite ?orb_true_r; simpl; split; try discriminate; intros (_ & _ & _ & H & _); discriminate.
     - split; [discriminate|]. intros (_ & _ & _ & H & _); discriminate.
     - split; [discriminate|]. intros (_ & _ & _ & H & _); discriminate. }
   fold (deps_changed v (getrec d t) df).
-  destruct (check_files md5 c fs (getrec d t) true (file_dep df) [] []) as [ch ms| |] eqn:E5; simpl.
+  destruct (check_files md5 v c fs (getrec d t) true (file_dep df) [] []) as [ch ms| |] eqn:E5; simpl.
   - destruct ch as [|x ch]; simpl.
     + destruct ms as [|y ms]; simpl.
       * apply check_files_done_nil_gen in E5. destruct E5 as (_ & _ & E5).
@@ -285,16 +358,16 @@ Proof.
         destruct (deps_changed v (getrec d t) df); simpl; split; try discriminate; try tauto;
           intros (H1 & H2 & H3 & _ & H5 & _); discriminate.
       * split; [discriminate|]. intros (_ & _ & _ & _ & _ & H).
-        assert (E6 : check_files md5 c fs (getrec d t) true (file_dep df) [] [] = FLDone [] [])
+        assert (E6 : check_files md5 v c fs (getrec d t) true (file_dep df) [] [] = FLDone [] [])
           by (apply check_files_done_nil_gen; auto). congruence.
     + split; [discriminate|]. intros (_ & _ & _ & _ & _ & H).
-      assert (E6 : check_files md5 c fs (getrec d t) true (file_dep df) [] [] = FLDone [] [])
+      assert (E6 : check_files md5 v c fs (getrec d t) true (file_dep df) [] [] = FLDone [] [])
         by (apply check_files_done_nil_gen; auto). congruence.
   - split; [discriminate|]. intros (_ & _ & _ & _ & _ & H).
-    assert (E6 : check_files md5 c fs (getrec d t) true (file_dep df) [] [] = FLDone [] [])
+    assert (E6 : check_files md5 v c fs (getrec d t) true (file_dep df) [] [] = FLDone [] [])
       by (apply check_files_done_nil_gen; auto). congruence.
   - split; [discriminate|]. intros (_ & _ & _ & _ & _ & H).
-    assert (E6 : check_files md5 c fs (getrec d t) true (file_dep df) [] [] = FLDone [] [])
+    assert (E6 : check_files md5 v c fs (getrec d t) true (file_dep df) [] [] = FLDone [] [])
       by (apply check_files_done_nil_gen; auto). congruence.
 Qed.
 
@@ -489,21 +562,22 @@ Proof.
 Qed.
 
 (* ---------- no TypeError on well-typed records ---------- *)
-Lemma file_verdict_typed c fs r f :
-  (forall e, r_saved r f = Some e -> typed c e = true) -> file_verdict md5 c fs r f <> FCrash.
+Lemma dep_verdict_typed v c fs r f :
+  (forall e, r_saved r f = Some e -> typed c e = true) -> dep_verdict md5 v c fs r f <> FCrash.
 Proof.
-  intros H. unfold file_verdict. destruct (fs f); [|discriminate].
+  intros H. unfold dep_verdict. destruct (fs f); [|discriminate].
   destruct (r_saved r f) as [e|] eqn:E; [|discriminate].
+  destruct (fixC v && outside_saved_deps r f); [discriminate|].
   destruct (check_modified md5 c m e) as [[|]|] eqn:E2; try discriminate.
   exfalso. apply (typed_check_modified c m e); auto.
 Qed.
 
 Lemma get_status_crash v c fs d t df gl :
   g_status (get_status md5 v c fs d t df gl) = Crash ->
-  check_files md5 c fs (getrec (if ck_changed c (getrec d t) then remove d t else d) t) gl (file_dep df) [] [] = FLCrash.
+  check_files md5 v c fs (getrec (if ck_changed c (getrec d t) then remove d t else d) t) gl (file_dep df) [] [] = FLCrash.
 Proof.
   intros H.
-  destruct (check_files md5 c fs (getrec (if ck_changed c (getrec d t) then remove d t else d) t) gl (file_dep df) [] []) eqn:E; auto;
+  destruct (check_files md5 v c fs (getrec (if ck_changed c (getrec d t) then remove d t else d) t) gl (file_dep df) [] []) eqn:E; auto;
     exfalso; revert H; unfold get_status; cbv zeta; fold (ck_changed c (getrec d t)); rewrite E;
     repeat (match goal with |- context [if ?b then _ else _] => destruct b end; simpl); discriminate.
 Qed.
@@ -515,7 +589,7 @@ Lemma get_status_no_crash v c fs d t df gl :
   rec_typed (getrec d t) -> g_status (get_status md5 v c fs d t df gl) <> Crash.
 Proof.
   intros Hty H. apply get_status_crash in H. revert H. apply check_files_no_crash.
-  intros f _. apply file_verdict_typed. intros e He.
+  intros f _. apply dep_verdict_typed. intros e He.
   unfold ck_changed in He. unfold rec_typed in Hty.
   destruct (r_checker (getrec d t)) as [p|] eqn:Ep.
   - destruct (ck_eqb p c) eqn:Epc; simpl in He.
@@ -528,8 +602,8 @@ Qed.
 Lemma get_status_fs_ext v c fs fs' d t df gl :
   (forall x, In x (targets df) -> exists_ fs' x = exists_ fs x) ->
   (forall f, In f (file_dep df) ->
-     file_verdict md5 c fs' (getrec (if ck_changed c (getrec d t) then remove d t else d) t) f =
-     file_verdict md5 c fs (getrec (if ck_changed c (getrec d t) then remove d t else d) t) f) ->
+     dep_verdict md5 v c fs' (getrec (if ck_changed c (getrec d t) then remove d t else d) t) f =
+     dep_verdict md5 v c fs (getrec (if ck_changed c (getrec d t) then remove d t else d) t) f) ->
   get_status md5 v c fs' d t df gl = get_status md5 v c fs d t df gl.
 Proof.
   intros Ht Hf. unfold get_status. cbv zeta. fold (ck_changed c (getrec d t)).
@@ -537,31 +611,31 @@ Proof.
   { clear Hf. induction (targets df) as [|x l IH]; simpl; auto.
     rewrite (Ht x) by (simpl; auto). rewrite IH; auto. intros; apply Ht; simpl; auto. }
   rewrite E1.
-  rewrite (check_files_ext c fs' fs _ _ gl (file_dep df) Hf). reflexivity.
+  rewrite (check_files_ext v c fs' fs _ _ gl (file_dep df) Hf). reflexivity.
 Qed.
 
 (* ---------- `error` means a missing file dependency ---------- *)
-Lemma check_files_nolog c fs r deps : forall ch ms,
-  match check_files md5 c fs r false deps ch ms with
+Lemma check_files_nolog v c fs r deps : forall ch ms,
+  match check_files md5 v c fs r false deps ch ms with
   | FLError f => In f deps /\ fs f = None
   | FLDone _ ms' => ms' = rev ms
   | FLCrash => True
   end.
 Proof.
   induction deps as [|f deps IH]; intros ch ms; simpl; auto.
-  destruct (file_verdict md5 c fs r f) eqn:E; auto.
-  - split; auto. unfold file_verdict in E. destruct (fs f); auto.
-    destruct (r_saved r f); [destruct (check_modified md5 c m f0) as [[|]|]|]; discriminate.
-  - specialize (IH (f :: ch) ms). destruct (check_files md5 c fs r false deps (f :: ch) ms); auto. tauto.
-  - specialize (IH ch ms). destruct (check_files md5 c fs r false deps ch ms); auto. tauto.
+  destruct (dep_verdict md5 v c fs r f) eqn:E; auto.
+  - split; auto. unfold dep_verdict in E. destruct (fs f); auto.
+    destruct (r_saved r f); [destruct (fixC v && outside_saved_deps r f); [|destruct (check_modified md5 c m f0) as [[|]|]]|]; discriminate.
+  - specialize (IH (f :: ch) ms). destruct (check_files md5 v c fs r false deps (f :: ch) ms); auto. tauto.
+  - specialize (IH ch ms). destruct (check_files md5 v c fs r false deps ch ms); auto. tauto.
 Qed.
 
 Lemma get_status_error v c fs d t df :
   g_status (get_status md5 v c fs d t df false) = Error -> exists f, In f (file_dep df) /\ fs f = None.
 Proof.
   intros H.
-  pose proof (check_files_nolog c fs (getrec (if ck_changed c (getrec d t) then remove d t else d) t) (file_dep df) [] []) as Hc.
-  destruct (check_files md5 c fs (getrec (if ck_changed c (getrec d t) then remove d t else d) t) false (file_dep df) [] []) as [ch ms|f|] eqn:E.
+  pose proof (check_files_nolog v c fs (getrec (if ck_changed c (getrec d t) then remove d t else d) t) (file_dep df) [] []) as Hc.
+  destruct (check_files md5 v c fs (getrec (if ck_changed c (getrec d t) then remove d t else d) t) false (file_dep df) [] []) as [ch ms|f|] eqn:E.
   - exfalso. simpl in Hc. subst ms. revert H. unfold get_status; cbv zeta; fold (ck_changed c (getrec d t)); rewrite E.
     repeat (match goal with |- context [if ?b then _ else _] => destruct b end; simpl); discriminate.
   - exists f. exact Hc.
@@ -575,6 +649,59 @@ Lemma get_status_uptodate_db v c fs d t df :
 Proof.
   intros H. destruct (get_status_db v c fs d t df false) as [E|[E _]]; auto.
   apply get_status_uptodate_iff in H. destruct H as (_ & _ & _ & H & _). congruence.
+Qed.
+
+(* ---------- an unchanged dep set: the loop's verdicts are the state comparisons [file_verdict] ---------- *)
+Lemma deps_unchanged_inside v r df :
+  fixA v = true -> deps_changed v r df = false ->
+  forall f, In f (file_dep df) -> outside_saved_deps r f = false.
+Proof.
+  intros HA H f Hf. unfold deps_changed in H. unfold outside_saved_deps.
+  destruct (r_deps r) as [p|]; auto.
+  assert (E : set_eqb p (file_dep df) = true).
+  { destruct p; [rewrite HA in H; simpl in H|]; apply negb_false_iff in H; exact H. }
+  apply set_eqb_same in E. apply negb_false_iff. apply mem_In. apply E. exact Hf.
+Qed.
+Lemma saved_deps_inside r df :
+  r_deps r = Some (file_dep df) -> forall f, In f (file_dep df) -> outside_saved_deps r f = false.
+Proof.
+  intros E f Hf. unfold outside_saved_deps. rewrite E. apply negb_false_iff. apply mem_In. exact Hf.
+Qed.
+Lemma no_saved_deps_inside r f : r_deps r = None -> outside_saved_deps r f = false.
+Proof. intros E. unfold outside_saved_deps. rewrite E. reflexivity. Qed.
+Lemma Forall_verdicts_inside v c fs r (deps : list file) :
+  (forall f, In f deps -> outside_saved_deps r f = false) ->
+  (Forall (fun f => dep_verdict md5 v c fs r f = FSame) deps <-> Forall (fun f => file_verdict md5 c fs r f = FSame) deps).
+Proof.
+  intros H. rewrite !Forall_forall. split; intros H1 f Hf.
+  - rewrite <- (dep_verdict_inside v); auto.
+  - rewrite dep_verdict_inside; auto.
+Qed.
+Lemma uptodate_verdicts v c fs r df :
+  fixA v = true -> deps_changed v r df = false ->
+  (Forall (fun f => dep_verdict md5 v c fs r f = FSame) (file_dep df) <->
+   Forall (fun f => file_verdict md5 c fs r f = FSame) (file_dep df)).
+Proof. intros HA H. apply Forall_verdicts_inside. apply (deps_unchanged_inside v); auto. Qed.
+
+Lemma get_status_uptodate_iff_fv v c fs d t df :
+  fixA v = true ->
+  (g_status (get_status md5 v c fs d t df false) = UpToDate <->
+    items_ok d t df /\ some_dep d t df /\ targets_ok fs df /\
+    ck_changed c (getrec d t) = false /\ deps_changed v (getrec d t) df = false /\
+    Forall (fun f => file_verdict md5 c fs (getrec d t) f = FSame) (file_dep df)).
+Proof.
+  intros HA. rewrite get_status_uptodate_iff.
+  split; intros (H1 & H2 & H3 & H4 & H5 & H6); repeat split; auto; apply (uptodate_verdicts v c fs _ df HA H5); auto.
+Qed.
+Lemma get_status_log_uptodate_iff_fv v c fs d t df :
+  fixA v = true ->
+  (g_status (get_status md5 v c fs d t df true) = UpToDate <->
+    items_ok d t df /\ some_dep d t df /\ targets_ok fs df /\
+    ck_changed c (getrec d t) = false /\ deps_changed v (getrec d t) df = false /\
+    Forall (fun f => file_verdict md5 c fs (getrec d t) f = FSame) (file_dep df)).
+Proof.
+  intros HA. rewrite get_status_log_uptodate_iff.
+  split; intros (H1 & H2 & H3 & H4 & H5 & H6); repeat split; auto; apply (uptodate_verdicts v c fs _ df HA H5); auto.
 Qed.
 
 End StatusP.
